@@ -127,7 +127,7 @@ def _run_query(
             query = query.where(ArchiveFile.acq << acqs)
 
         # Limit by file-list, if given
-        if listed_files:
+        if listed_files is not None:
             query = query.where(ArchiveFileCopy.file << listed_files)
 
         # Limit to registration time, if requested.  This will implicitly
